@@ -15,5 +15,6 @@ CONSTANTS
   RespCap = 1
   WithIndexer = FALSE
   MaxHeaders = 0
-INVARIANTS NoCrash NoLostTopic LockInv NoLeakedPublisher TopicAgreement
+  TraceMode = FALSE
+INVARIANTS NoCrash NoLostTopic LockInv NoLeakedPublisher TopicAgreement IndexerInv
 CHECK_DEADLOCK TRUE
